@@ -105,6 +105,14 @@ def arith_cases(rng, m, ctx, full):
                     pa2 = pcorr(a2)
                 else:
                     a2, pa2 = a, pa
+                if op == 'div' and kind == 'corr' and rng.random() < 0.4:
+                    # 0 / 0 at one timeslice where both are defined: the quotient is not a number there
+                    both = [t for t in range(T) if a2.content[t] is not None and p.content[t] is not None]
+                    if both:
+                        tz = both[int(rng.integers(0, len(both)))]
+                        a2 = pe.Corr([None if x is None else (x[0] * 0 if t == tz else x[0]) for t, x in enumerate(a2.content)])
+                        p = pe.Corr([None if x is None else (x[0] * 0 if t == tz else x[0]) for t, x in enumerate(p.content)])
+                        pa2, pp = pcorr(a2), {'k': 'corr', 'c': pcorr(p)}
                 before = [pcorr(a2), pp]
                 r = _call(lambda: BIN[op](a2, p) if order == 'left' else BIN[op](p, a2))
                 r2 = _call(lambda: BIN[op](a2, p) if order == 'left' else BIN[op](p, a2))
@@ -152,8 +160,24 @@ def matrix_complex_cases(rng, m, ctx):
                 p, pp = partner(rng, 'corr', T, mask2, N=N)
             else:
                 p, pp = partner(rng, kind, T, mask2)
-            r = _call(lambda: BIN[op](a, p) if order == 'left' else BIN[op](p, a))
-            cases.append({'id': '%s-mx%d-%s-%s-%s' % (m['id'], N, op, kind, order), 'ev': 'arith', 'a': pa, 'op': op, 'p': pp,
+            aa, paa = a, pa
+            if op == 'div' and kind in ('corr', 'corr1') and order == 'left' and rng.random() < 0.5:
+                both = [t for t in range(T) if a.content[t] is not None and p.content[t] is not None]
+                if both:
+                    tz = both[int(rng.integers(0, len(both)))]
+
+                    def zero00(c, t):
+                        x = np.array(c.content[t], dtype=object).copy()
+                        if x.ndim == 2:
+                            x[0, 0] = x[0, 0] * 0
+                        else:
+                            x = x[0] * 0
+                        return x
+                    aa = pe.Corr([None if x is None else (zero00(a, t) if t == tz else x) for t, x in enumerate(a.content)])
+                    p = pe.Corr([None if x is None else (zero00(p, t) if t == tz else (x if p.N > 1 else x[0])) for t, x in enumerate(p.content)])
+                    paa, pp = pcorr(aa), {'k': 'corr', 'c': pcorr(p)}
+            r = _call(lambda: BIN[op](aa, p) if order == 'left' else BIN[op](p, aa))
+            cases.append({'id': '%s-mx%d-%s-%s-%s' % (m['id'], N, op, kind, order), 'ev': 'arith', 'a': paa, 'op': op, 'p': pp,
                           'selfleft': order == 'left', 'n': NS, 'res': pres(r)})
             ctx.nontrivial.add(('mx', N, op, kind, order))
     # complex content: the supported subset
